@@ -164,11 +164,14 @@ def idl_structs(pkg):
         mem = []
         for mm in re.finditer(r'(\d+)\s+(require|optional)\s+([^;=]+?)\s+(\w+)\s*(\[\s*\d+\s*\])?\s*(?:=\s*([^;]+?))?\s*;', m.group(2)):
             ty = re.sub(r'\s+', ' ', mm.group(3).strip())
+            dflt = mm.group(6).strip() if mm.group(6) else None
             if ty in enums:
+                if dflt is not None and re.match(r'^[A-Za-z_]\w*$', dflt):
+                    dflt = "%s_%s" % (upper1(ty), dflt)  # an enumerator: the generated constant of that name
                 ty = "enum"
             if mm.group(5):
                 ty = "array<%s>" % ty  # fixed array T name[N]: on the wire a LIST like vector<T>
-            mem.append((int(mm.group(1)), mm.group(2) == "require", ty, mm.group(4), mm.group(6).strip() if mm.group(6) else None))
+            mem.append((int(mm.group(1)), mm.group(2) == "require", ty, mm.group(4), dflt))
         out[m.group(1)] = mem
     return out
 
@@ -182,7 +185,15 @@ def idl_interfaces(pkg):
         ops = []
         for mm in re.finditer(r'([\w<>, ]+?)\s+(\w+)\s*\(([^)]*)\)\s*;', m.group(2)):
             args = []
-            for a in [x.strip() for x in mm.group(3).split(',') if x.strip()]:
+            parts, cur, depth = [], "", 0
+            for ch in mm.group(3):  # split at the commas outside <...>
+                depth += (ch == '<') - (ch == '>')
+                if ch == ',' and depth == 0:
+                    parts.append(cur); cur = ""
+                else:
+                    cur += ch
+            parts.append(cur)
+            for a in [x.strip() for x in parts if x.strip()]:
                 w = a.split()
                 args.append((w[0] == "out", " ".join(w[1:-1]) if w[0] == "out" else " ".join(w[:-1]), w[-1]))
             ops.append((mm.group(2), mm.group(1).strip() != "void", args))
@@ -191,6 +202,45 @@ def idl_interfaces(pkg):
 
 def upper1(s):
     return s[0].upper() + s[1:]
+
+def copy_back_clauses(nread, hasret):
+    """Reply maps of a two-way proxy (C01: the caller gets the response context / status the implementation set):
+    the maps handed to TarsInvoke are the caller's opts[0] / opts[1]; on a successful return the context map holds
+    nothing but entries of the reply's Context with their values (it is emptied, then filled from the reply), likewise
+    the status map and the reply's Status. With two maps the claim about the context map needs the status map to be a
+    different map from it and from the reply's Context (else the second pair of loops legitimately rewrites it).
+    The converse inclusion (every reply entry arrives) is not proved: the copy loops insert into a map of the ranged
+    type, for which the range gives no completeness fact. Ghosts gresp/gctx/gsta name the reply packet and the two
+    maps; every call in between is a havoc for ghosts too, so they are re-established after each later call site.
+    The six loops are, in source order: clear, copy (one map given); clear, copy, clear, copy (two maps given)."""
+    RC = 'cast(obj.gresp, "*requestf.ResponsePacket")'
+    GC = 'cast(obj.gctx, "map[string]string")'
+    GS = 'cast(obj.gsta, "map[string]string")'
+    def sub(m, R):
+        return '(forall k: seq {%s[k]} {haskey(%s, k)} :: haskey(%s, k) ==> (haskey(%s, k) && %s[k] == %s[k]))' % (m, m, m, R, m, R)
+    def cleared(n, m):
+        return ('(forall k: seq {visited(%d, k)} :: visited(%d, k) ==> !haskey(%s, k)) && '
+                '(forall k: seq {haskey(%s, k)} :: haskey(%s, k) ==> atentry(%d, haskey(%s, k)))') % (n, n, m, m, m, n, m)
+    base = 'obj.gresp == addr(*tarsResp) && obj.gctx == contextMap && obj.gsta == statusMap'
+    res = 'result1' if hasret else 'result0'
+    apart = '(statusMap != contextMap && statusMap != tarsResp.Context)'
+    o = ['//@   site TarsInvoke#0 assert [C16] ((len(opts) == 1 || len(opts) == 2) ==> $5 == opts[0]) && (len(opts) == 2 ==> $4 == opts[1]) && $5 == contextMap && $4 == statusMap && $6 == tarsResp']
+    for site in ['TarsInvoke#0', 'NewReader#0'] + [').Read#%d' % k for k in range(nread)] + ['Trace).Call#1', 'tars.Trace#1']:
+        o += ['//@   site %s ghostafter obj.gresp = addr(*tarsResp)' % site,
+              '//@   site %s ghostafter obj.gctx = contextMap' % site,
+              '//@   site %s ghostafter obj.gsta = statusMap' % site]
+    o += ['//@   ensures [C16] (%s == nil && len(opts) == 1) ==> %s' % (res, sub(GC, RC + '.Context')),
+          '//@   ensures [C16] (%s == nil && len(opts) == 2) ==> %s' % (res, sub(GS, RC + '.Status')),
+          '//@   ensures [C16] (%s == nil && len(opts) == 2 && obj.gsta != obj.gctx && obj.gsta != %s.Context) ==> %s' % (res, RC, sub(GC, RC + '.Context')),
+          '//@   loop 0 invariant %s && len(opts) == 1 && %s' % (base, cleared(0, 'contextMap')),
+          '//@   loop 1 invariant %s && len(opts) == 1 && %s' % (base, sub('contextMap', 'tarsResp.Context')),
+          '//@   loop 2 invariant %s && len(opts) == 2 && %s' % (base, cleared(2, 'contextMap')),
+          '//@   loop 3 invariant %s && len(opts) == 2 && %s' % (base, sub('contextMap', 'tarsResp.Context')),
+          '//@   loop 4 invariant %s && len(opts) == 2 && %s && (%s ==> %s)' % (base, cleared(4, 'statusMap'), apart, sub('contextMap', 'tarsResp.Context')),
+          '//@   loop 5 invariant %s && len(opts) == 2 && %s && (%s ==> %s)' % (base, sub('statusMap', 'tarsResp.Status'), apart, sub('contextMap', 'tarsResp.Context'))]
+    o += ['//@   loop %d modifies mapcells(%s)' % (n, 'contextMap' if n < 4 else 'statusMap') for n in range(6)]
+    return o
+
 
 def iface_contracts(pkg):
     """Wire agreement of the generated proxies and dispatcher with the IDL (C16/C01): parameter number i of an
@@ -216,12 +266,16 @@ def iface_contracts(pkg):
             o += ["//@ func (*%s).%sWithContext" % (iface, upper1(op)), "//@   noframe"]
             o += ["//@   site ).Write#%d assert [C16] $2 == %d" % (k, t) for k, t in enumerate(alls)]
             o += ["//@   sites ).Write = %d" % len(alls)]
+            # the call goes out as a normal (two-way) packet under the operation's IDL name
+            o += ['//@   site TarsInvoke#0 assert [C16] $1 == 0 && $2 == "%s"' % op, "//@   sites TarsInvoke = 1"]
             rd = ret + outs
             o += ["//@   site ).Read#%d assert [C16] $2 == %d" % (k, t) for k, t in enumerate(rd)]
-            o += ["//@   sites ).Read = %d" % len(rd)] + loops6 + ["//"]
+            o += ["//@   sites ).Read = %d" % len(rd)] + copy_back_clauses(len(rd), hasret) + ["//"]
             o += ["//@ func (*%s).%sOneWayWithContext" % (iface, upper1(op)), "//@   noframe"]
             o += ["//@   site ).Write#%d assert [C16] $2 == %d" % (k, t) for k, t in enumerate(alls)]
-            o += ["//@   sites ).Write = %d" % len(alls), "//@   sites ).Read = 0", "//"]
+            o += ["//@   sites ).Write = %d" % len(alls), "//@   sites ).Read = 0"]
+            # the one-way variant sends the same operation name with the one-way packet type and reads no reply
+            o += ['//@   site TarsInvoke#0 assert [C16] $1 == 1 && $2 == "%s"' % op, "//@   sites TarsInvoke = 1", "//"]
             # dispatcher, per operation: TARS branch then TUP branch
             drd += ins + [0] * len(ins)
             dwr += ret + outs + [0] * len(ret + outs) + [None]  # the JSON reply is one untagged byte-slice write
@@ -635,6 +689,40 @@ def schema_contract(pkg, ty, mem, fields, idl=None, src=None):
 
 GOFILE, IDLFILE = {}, {}
 
+def enum_check(pkg, src):
+    """Executed closed check (no quantifier): every enumerator constant of the generated file has the value the IDL
+    prescribes - an explicit integer, else the predecessor's value plus one, 0 for a leading implicit one.
+    Enumerators given by name (A = B) and everything after them in that enum are not compared."""
+    text = open(IDLFILE.get(pkg, "%s/tars/protocol/res/%s" % (REPO, IDL.get(pkg, "")))).read()
+    text = re.sub(r'/\*.*?\*/', '', text, flags=re.S)
+    text = re.sub(r'//[^\n]*', '', text)
+    bad = []
+    for m in re.finditer(r'\benum\s+(\w+)\s*\{(.*?)\}', text, re.S):
+        en, nxt = m.group(1), 0
+        for item in [x.strip() for x in m.group(2).split(',') if x.strip()]:
+            mm = re.match(r'^(\w+)\s*(?:=\s*(\S+))?$', item)
+            if not mm:
+                break
+            if mm.group(2) is not None:
+                try:
+                    nxt = int(mm.group(2), 0)
+                except ValueError:
+                    break
+            g = re.search(r'\b%s_%s\s+(?:%s\s+)?=\s*(-?\w+)' % (re.escape(upper1(en)), re.escape(mm.group(1)), re.escape(upper1(en))), src)
+            if not g:
+                bad.append("enum %s: no constant for %s in the generated file" % (en, mm.group(1)))
+            else:
+                try:
+                    have = int(g.group(1), 0)
+                except ValueError:
+                    have = None
+                if have != nxt:
+                    bad.append("enum %s: %s is %s in the generated file, the IDL prescribes %d" % (en, mm.group(1), g.group(1), nxt))
+            nxt += 1
+    if bad:
+        print("\n".join(bad))
+        sys.exit(1)
+
 def gen(pkg):
     fn = GOFILE.get(pkg, "%s/tars/protocol/res/%s/%sF.go" % (REPO, pkg, pkg[:-1].capitalize()))
     src = open(fn).read()
@@ -646,6 +734,7 @@ def gen(pkg):
          "// type, required ones always, optional ones unless equal to their declared default.", "",
          "package " + pkg, ""]
     idl = idl_structs(pkg)
+    enum_check(pkg, src)
     done = set()
     for ty, name, body in methods(src):
         if name == "WriteTo" and ty in idl and ty not in done:
